@@ -40,7 +40,7 @@ ASSUMPTIONS = ["the asyncio event loop is single threaded: the generated yield c
                "L1 schedules come from generated sleep durations inside the step scripts; the oracle only uses the order "
                "of the event log, never time stamps",
                "Bob runs in the harness process; suspected violations are re-run in a fresh process"]
-TIME_BUDGET = {"quick": 250, "thorough": 1700}
+TIME_BUDGET = {"quick": 220, "thorough": 1700}
 BATCH = 4
 
 # ---------------------------------------------------------------------------------------------------------------
